@@ -248,7 +248,20 @@ func TestC05(t *testing.T) {
 		buf := make([]byte, rapid.IntRange(1, 40000).Draw(t, "bufsize"))
 		wi := 0
 		var wrote []byte
-		for {
+		viaCopy := idleAt < 0 && rapid.IntRange(0, 3).Draw(t, "relay_with_io_copy") == 0
+		if viaCopy {
+			// the relay is io.Copy(backend, conn): it takes the Conn's io.WriterTo when it has
+			// one, otherwise it calls Read with its own buffer - the backend gets the same bytes
+			var sink bytes.Buffer
+			var n64 int64
+			e := guard(func() error { var e error; n64, e = io.Copy(&sink, c); return e })
+			got = sink.Bytes()
+			if e != nil || int(n64) != len(got) {
+				ev.Violation(t, "C05", rp, "io.Copy(backend, conn) returned (%d, %v)", n64, e)
+			}
+			cl = append(cl, "relay_with_io_copy")
+		}
+		for !viaCopy {
 			if wi < len(backendRecs) && rapid.Bool().Draw(t, "write_now") {
 				b := backendRecs[wi]
 				wi++
